@@ -614,9 +614,12 @@ def run(chk):
         elif m["wf"] and oc == "illegal":
             chk.report("impl-differs-from-spec", case, impl={"outcome": oc, "validator": v[1]}, model=m,
                        law="a WF definition never fails as an Illegal State Machine (wf_no_illegal_machine tied to the engine)")
+        elif m["ill"] and oc == "SUCCEEDED" and v[1] != []:
+            # a definition the validator rejects: the model runs the branches of a fan-out in order and stops at the first
+            # illegal site, while on the engine a sibling's failure (handled by a Catch) can pre-empt that site — the
+            # property is silent about rejected definitions that happen to complete
+            chk.dist("ill.rejected_definition_engine_completes")
         elif m["ill"] and oc == "SUCCEEDED":
-            # (also for definitions the validator rejects: since f2516e3 the engine refuses transitions across scopes,
-            # which used to "work" because find_state searches the whole definition)
             chk.report("impl-differs-from-spec", case, impl={"outcome": oc, "validator": v[1]}, model=m,
                        law="the model reaches an illegal site on a run the engine completes successfully")
 
